@@ -20,7 +20,7 @@ for p in props:
         "evidence_file": "/verif/evidence/%s.json" % pid,
         "replay_cmd_template": "./check %s quick --explain {path}" % pid,
         "engine": "pvcheck",
-        "level_claimed": {"category": "other", "text": c["text"], "design_ref": "DESIGN.md §4 " + pid},
+        "level_claimed": {"category": "other", "text": c["text"] + " Rules added after seeded changes (DESIGN.md §8.6) are listed with their statements and site counts in the evidence file (coverage.rules); all of them are structural necessary conditions, none decides the behaviour.", "design_ref": "DESIGN.md §4 " + pid + ", §8"},
         "level_note": c.get("note", claims["default_note"]),
         "technique": c["technique"],
     })
